@@ -185,6 +185,7 @@ def gen_trace(rnd, mtypes, ntasks=4, nscopes=8, nops=30, records=True):
     d.reset(dict(alive=[0] * 4, phase=[0] * 8))
     tr = [dict(ev="Init", init={})]
     stack = {1: []}
+    waiting = {}  # task -> async scope whose spawned tasks it awaits
     base_tg = {1: 0}
     grp = {}
     alive = {1}
@@ -205,14 +206,15 @@ def gen_trace(rnd, mtypes, ntasks=4, nscopes=8, nops=30, records=True):
 
     try:
         for _ in range(nops):
-            t = rnd.choice(sorted(alive))
+            for u in [u for u, sid in waiting.items() if not any(grp.get(x) == sid for x in alive)]:
+                del waiting[u]  # the group emptied: the exit completed by itself
+            t = rnd.choice(sorted(alive - set(waiting)))
             ch = [("Tick", [])]
             if nsid < nscopes and len(stack[t]) < 4:
                 ch += [("Open", [t, rnd.choice(["s", "a"])])] * 4
             if stack[t]:
                 sid, k = stack[t][-1]
-                if k == "s" or not any(grp.get(u) == sid for u in alive):
-                    ch += [("Close", [t])] * 3
+                ch += [("Close", [t])] * 3
             if born < ntasks:
                 hows = ["plain"]
                 if tg_of(t) != 0 and tg_of(t) in opened:
@@ -230,6 +232,8 @@ def gen_trace(rnd, mtypes, ntasks=4, nscopes=8, nops=30, records=True):
             elif name == "Close":
                 sid, k = stack[t].pop()
                 opened.discard(sid)
+                if k == "a" and any(grp.get(u) == sid for u in alive):
+                    waiting[t] = sid
             elif name == "Start":
                 born += 1
                 base_tg[born] = tg_of(t)
@@ -250,9 +254,9 @@ def gen_trace(rnd, mtypes, ntasks=4, nscopes=8, nops=30, records=True):
 def trace_kw(mtypes):
     return dict(
         variables=["par", "kids", "phase", "kind", "done", "born", "doneAt", "cbq", "cblog", "vals", "cur", "tg", "stack",
-                   "saved", "grp", "alive", "now", "nrec", "nops", "drained", "obs"],
+                   "saved", "grp", "alive", "wait", "now", "nrec", "nops", "drained", "obs"],
         constants=dict(NTasks=4, N=8, MaxOps=100000, MaxRec=100000, MaxT=100000,
                        MTypes="{" + ", ".join(f'"{m}"' for m in mtypes) + "}", Kinds='{"s", "a"}', Bug='"none"'),
         config_vars=[], actions=dict(Open=2, Close=1, Start=3, End=1, Tick=0, Record=2, Drain=0),
-        internal="Internal", quiet="cbq = {}",
-        invariants=["CbAtMostOnce", "CbAfterSubtree", "CbSeesCompleted", "ExitNeverFails", "FoldOrder"])
+        internal="Internal", quiet="M!Rest",
+        invariants=["CbAtMostOnce", "CbAfterSubtree", "CbAfterMembers", "CbSeesCompleted", "ExitNeverFails", "FoldOrder"])
